@@ -436,7 +436,7 @@ def _read_pickle(file_info, **kwargs):
          "the file whose name covers its time), period cutting through the first and last file; processes 1..3, bundle None / 'primary' / "
          "'daily', output to memory and to a Collocations fileset (files named by the span of what they hold, read back per sub-period): "
          "the multiset of (primary id, secondary id) pairs must equal a brute-force search over all points; 3 (quick) / 36 (thorough) "
-         "configurations")
+         "configurations with a max_interval of 10 minutes plus 1 / 3 with a max_interval of more than a day")
 def bounded_filesets(rng, tier):
     import itertools
     import logging
@@ -479,6 +479,9 @@ def bounded_filesets(rng, tier):
         return fs, points
     configs = [(1, None, False), (2, "primary", False), (2, "daily", True)] if tier == "quick" else \
         list(itertools.product([1, 2, 3], [None, "primary", "daily"], [False, True])) * 2
+    # the last configuration(s) run with a max_interval of more than a day (every file of one side is a partner of every file of the other)
+    long_from = len(configs)
+    configs = configs + ([(1, None, False)] if tier == "quick" else [(1, None, False), (2, "primary", False), (3, "daily", True)])
     # one more kind of configuration: a file overwritten with garbage, skip_file_errors=True (memory output)
     corrupt_runs = [(1, None), (2, "primary")] if tier == "quick" else [(p_, b_) for p_ in (1, 2, 3) for b_ in (None, "primary", "daily")]
     logging.disable(logging.CRITICAL)
@@ -486,7 +489,8 @@ def bounded_filesets(rng, tier):
     try:
         data_sets = {}
         for ci, (processes, bundle, to_files) in enumerate(configs):
-            di = 0 if tier == "quick" else ci // 18
+            di = 0 if tier == "quick" else min(ci // 18, 1)
+            max_interval = timedelta(days=1, minutes=10) if ci >= long_from else timedelta(minutes=10)
             if di not in data_sets:
                 r2 = _os2.path.join(root, "data%d" % di)
                 P_, pp = make(r2, "P", 60, "pid", 0)
@@ -497,8 +501,8 @@ def bounded_filesets(rng, tier):
             truth = Counter((p[0], s[0]) for p in pp for s in sp
                             if p[2] == s[2] and abs(p[1] - s[1]) < max_interval and start <= p[1] <= end and start <= s[1] <= end)
             evals += 1
-            distinct.add((di, processes, bundle, to_files))
-            case = {"dataset": di, "processes": processes, "bundle": bundle, "output": "fileset" if to_files else "memory", "true_pairs": sum(truth.values())}
+            distinct.add((di, processes, bundle, to_files, ci >= long_from))
+            case = {"dataset": di, "processes": processes, "bundle": bundle, "max_interval": str(max_interval), "output": "fileset" if to_files else "memory", "true_pairs": sum(truth.values())}
             kwargs = dict(start=start, end=end, max_interval=max_interval, max_distance=max_km, processes=processes, bundle=bundle)
 
             def pairs_of(ds):
@@ -536,6 +540,7 @@ def bounded_filesets(rng, tier):
             elif len(samples) < 3:
                 samples.append(case)
         # unreadable file: only the collocations that involve its points may disappear
+        max_interval = timedelta(minutes=10)
         r3 = _os2.path.join(root, "bad")
         P_, pp = make(r3, "P", 60, "pid", 0)
         S_, sp = make(r3, "S", 20, "sid", 1000)
